@@ -98,6 +98,11 @@ def mountKeyPath (cwd p : Path) : Path :=
   let p2 := cleanStr p1
   if ends && p2 != [47] then p2 ++ [47] else p2
 
+/-- `k` is a string prefix of `path` that ends at a component boundary (the mount point ends
+    with '/', or the next byte of the path is '/') -/
+def mountMatches (path k : Path) : Bool :=
+  hasPrefix path k && (hasSuffixSlash k || path[k.length]? == some 47)
+
 /-- model of `VirtualOS.findMount` over mount targets (keys = targets), visited in the
     order of the list (Go visits in arbitrary map order; see `findMount_perm`).
     Returns (target, relative path). -/
@@ -108,7 +113,7 @@ def findMountLoop (path : Path) : List Path → Option Path → Option (Path × 
     some (m, if rel.isEmpty then [47] else rel)
   | k :: ks, best =>
     if k = path then some (k, [47])
-    else if hasPrefix path k then
+    else if mountMatches path k then
       match best with
       | none => findMountLoop path ks (some k)
       | some m => findMountLoop path ks (if k.length > m.length then some k else some m)
@@ -135,8 +140,10 @@ def specMount (mounts : List Path) (cwd p : Path) : Option Path :=
     | none => some m
     | some b => if (comps m).length > (comps b).length then some m else some b) none
 
-/-- guard naming today's defect: the chosen mount is a raw string prefix of the path
-    without being a component-wise prefix of it (e.g. mount `/tmp`, path `/tmpfoo/x`). -/
+/-- the defect repaired by the `fix:` commit in os/virtual.go: the chosen mount was a raw
+    string prefix of the path without being a component-wise prefix of it (mount `/tmp`,
+    path `/tmpfoo/x`).  Kept as an executable predicate: it must now be false on every
+    answer (theorem `C13_mounts_component_prefix`), and the harness evaluates it. -/
 def stringPrefixOnly (mounts : List Path) (cwd p : Path) : Bool :=
   match findMount mounts cwd p with
   | none => false
